@@ -313,6 +313,11 @@ func (r *WALReader) ReadFrame(data []byte) (pgno, commit uint32, err error) {
 		return 0, 0, io.EOF
 	}
 
+	// A frame is only valid if it names a page: page numbers start at 1.
+	if binary.BigEndian.Uint32(hdr[0:]) == 0 {
+		return 0, 0, io.EOF
+	}
+
 	// Verify the checksum is valid.
 	chksum1 := binary.BigEndian.Uint32(hdr[16:])
 	chksum2 := binary.BigEndian.Uint32(hdr[20:])
